@@ -7,6 +7,35 @@ HERE = os.path.dirname(os.path.dirname(os.path.abspath(__file__)))
 D = os.path.join(HERE, 'design.d')
 
 
+def all_findings():
+    import glob
+    out = []
+    for f in [os.path.join(HERE, 'known_findings.json')] + sorted(glob.glob(os.path.join(HERE, 'known_findings.d', '*.json'))):
+        d = json.load(open(f))
+        out += d['findings'] if isinstance(d, dict) else d
+    return out
+
+
+def findings_table(status):
+    rows = []
+    for e in sorted(all_findings(), key=lambda e: (e['property'], e['id'])):
+        if e.get('status') != status:
+            continue
+        what = e['what']
+        if what.startswith('fixed: '):
+            what = what.split(' ', 3)[3] if len(what.split(' ', 3)) > 3 else what
+        what = what.replace('|', '\\|').replace('\n', ' ')
+        if len(what) > 330:
+            what = what[:327] + '...'
+        if status == 'fixed':
+            rows.append(f"| {e['property']} | `{e.get('commit', '?')}` | {e['id']} | {what} |")
+        else:
+            rows.append(f"| {e['property']} | {e['id']} | {what} |")
+    head = ('| property | /repo commit | finding | what failed |\n|---|---|---|---|\n' if status == 'fixed'
+            else '| property | finding | what fails (specific input family; a narrow matcher recognises only this) |\n|---|---|---|\n')
+    return head + '\n'.join(rows) + '\n'
+
+
 def main():
     parts = [open(os.path.join(D, '00_head.md')).read()]
     for n in range(1, 21):
@@ -22,7 +51,9 @@ def main():
             parts.append('\n' + '\n'.join(lines) + '\n')
         else:
             parts.append(f'\n### C{n:02d} — (check not built yet)\n')
-    parts.append(open(os.path.join(D, '99_tail.md')).read())
+    tail = open(os.path.join(D, '99_tail.md')).read()
+    tail = tail.replace('@@FIXED_TABLE@@', findings_table('fixed')).replace('@@KNOWN_TABLE@@', findings_table('known'))
+    parts.append(tail)
     sd = os.path.join(HERE, 'seeded')
     if os.path.isdir(sd):
         rows = []
